@@ -23,8 +23,12 @@ def digest(a):
 
 
 def probe(a, k):
-    return dict(k=k, desc=gen_np.describe(a), digest=digest(a), memmap=isinstance(a, np.memmap), pid=os.getpid(),
-                base_memmap=isinstance(getattr(a, "base", None), np.memmap) or isinstance(a, np.memmap),
+    def real(x):
+        # an np.memmap instance that really maps a file (numpy's own pickling rebuilds the class without a mapping)
+        return isinstance(x, np.memmap) and getattr(x, "_mmap", None) is not None
+
+    return dict(k=k, desc=gen_np.describe(a), digest=digest(a), memmap=real(a), pid=os.getpid(),
+                base_memmap=real(getattr(a, "base", None)) or real(a),
                 writeable=bool(a.flags.writeable), first=repr(a.ravel()[:2].tolist()) if a.size else "[]")
 
 
@@ -38,6 +42,11 @@ for spec in cfg["arrays"]:
         mm = np.memmap(path, dtype=a.dtype, shape=a.shape, mode="w+", offset=spec.get("mm_offset", 0), order="F" if eff == "F" else "C")
         mm[...] = a
         mm.flush()
+        if spec.get("mm_private_write") and a.ndim and a.shape[0] > 1:
+            # copy-on-write mapping modified in the parent: the file keeps the old content, the array the parent passes has the new one
+            del mm
+            mm = np.memmap(path, dtype=a.dtype, shape=a.shape, mode="c", offset=spec.get("mm_offset", 0), order="F" if eff == "F" else "C")
+            mm[...] = np.ascontiguousarray(mm[::-1])
         a = mm if not spec.get("mm_slice") else mm[1:] if a.ndim and a.shape[0] > 1 else mm
         v = spec.get("mm_view")
         if v and a.ndim:
@@ -45,7 +54,11 @@ for spec in cfg["arrays"]:
             a = {"T": lambda: a.T, "rev": lambda: a[::-1], "rev-last": lambda: a[..., ::-1], "step": lambda: a[::2],
                  "inner": lambda: a[1:, 1:] if a.ndim >= 2 else a[1:], "swap": lambda: a.swapaxes(0, -1),
                  "plain-ndarray": lambda: np.asarray(a), "plain-ndarray-T": lambda: np.asarray(a).T,
-                 "rev-all": lambda: a[(slice(None, None, -1),) * a.ndim], "newaxis": lambda: a[None]}[v]()
+                 "rev-all": lambda: a[(slice(None, None, -1),) * a.ndim], "newaxis": lambda: a[None],
+                 # the same bytes read as another dtype
+                 "as-other-dtype": lambda: a.view({1: "u1", 2: "<u2", 4: "<u4", 8: "<u8", 16: "<c16"}.get(a.dtype.itemsize, "V%d" % a.dtype.itemsize)) if not a.dtype.hasobject and a.flags.c_contiguous else a,
+                 "as-swapped-dtype": lambda: a.view(a.dtype.newbyteorder()) if a.dtype.kind in "iufc" else a,
+                 "as-bytes": lambda: a.view("u1") if a.flags.c_contiguous and not a.dtype.hasobject else a}[v]()
     size = a.nbytes
     mx = spec["max_nbytes"]
     max_nbytes = {"none": None, "size-1": max(size - 1, 0), "size": size, "size+1": size + 1, "1K": "1K", "0": 0}[mx]
@@ -57,6 +70,19 @@ for spec in cfg["arrays"]:
         rec["got"] = res
     except BaseException as e:  # noqa
         rec["exc"] = f"{type(e).__name__}: {str(e)[:300]}"
+    if spec.get("mutate_between_calls") and not isinstance(a, np.memmap) and a.size > 1 and a.flags.writeable and not a.dtype.hasobject and a.ndim:
+        # one managed Parallel object, two calls, the argument modified in place in between
+        rec2 = dict(spec=dict(spec, second_call_after_in_place_change=True), size=size)
+        try:
+            with Parallel(n_jobs=2, backend=cfg["backend"], max_nbytes=max_nbytes, mmap_mode=spec.get("mmap_mode", "r")) as p:
+                p(delayed(probe)(a, k) for k in range(2))
+                a[...] = np.ascontiguousarray(a[::-1])
+                rec2["want"] = dict(desc=gen_np.describe(a), digest=digest(a))
+                rec2["got"] = p(delayed(probe)(a, k) for k in range(2))
+        except BaseException as e:  # noqa
+            rec2["exc"] = f"{type(e).__name__}: {str(e)[:300]}"
+            rec2.setdefault("want", want)
+        out.append(rec2)
     out.append(rec)
 json.dump(dict(runs=out, joblib=joblib.__file__, numpy=np.__version__), open(sys.argv[2], "w"))
 sys.stdout.flush()
